@@ -17,6 +17,10 @@ type Scope struct {
 	// joinedDepths - depth levels opened with BeginJoinedScope: a level that is technically a
 	// scope of its own but belongs to the same block of the program as the level below
 	joinedDepths map[int]bool
+	// blockIDs - identity of the block open at each depth (a joined level shares the one of
+	// the level below); blockSeq numbers the blocks ever opened
+	blockIDs []int
+	blockSeq int
 }
 
 type LocalSymbol struct {
@@ -42,6 +46,16 @@ func NewScope() *Scope {
 func (sp *Scope) BeginJoinedScope() {
 	sp.currentDepth++
 	sp.joinedDepths[sp.currentDepth] = true
+	sp.blockIDs = append(sp.blockIDs, sp.CurrentBlockID())
+}
+
+// CurrentBlockID - identity of the block being executed (0: the root level). Two blocks
+// never share an identity, not even two executions of the same piece of code
+func (sp *Scope) CurrentBlockID() int {
+	if len(sp.blockIDs) == 0 {
+		return 0
+	}
+	return sp.blockIDs[len(sp.blockIDs)-1]
 }
 
 // Depth - current nesting depth
@@ -51,11 +65,16 @@ func (sp *Scope) Depth() int {
 
 func (sp *Scope) BeginScope() {
 	sp.currentDepth++
+	sp.blockSeq++
+	sp.blockIDs = append(sp.blockIDs, sp.blockSeq)
 }
 
 func (sp *Scope) EndScope() {
 	delete(sp.joinedDepths, sp.currentDepth)
 	sp.currentDepth--
+	if len(sp.blockIDs) > 0 {
+		sp.blockIDs = sp.blockIDs[:len(sp.blockIDs)-1]
+	}
 
 	// pop all deeper values
 	for sp.localCount > 0 && sp.locals[sp.localCount-1].depth > sp.currentDepth {
@@ -117,17 +136,6 @@ func (sp *Scope) DeclareExternalValue(name string, value Element, moduleID int) 
 	// add external ref
 	sp.externalRefs[sp.localCount-1] = moduleID
 	return nil
-}
-
-// DeclaredInCurrentBlock - whether the name resolves to a declaration of the current block
-// (not to one of an enclosing block)
-func (sp *Scope) DeclaredInCurrentBlock(name string) bool {
-	lowest := sp.currentDepth
-	if sp.joinedDepths[sp.currentDepth] {
-		lowest = sp.currentDepth - 1
-	}
-	symbolID := sp.getSymbolID(name)
-	return symbolID >= 0 && sp.locals[symbolID].depth >= lowest
 }
 
 // getSymbolID - get the latest symbolID that matches the name
